@@ -43,7 +43,7 @@ def ind(lines, k=1):
 # ----------------------------------------------------------------------------
 
 CONSTRUCTS = ['if', 'ifelse', 'orelse', 'while', 'for', 'forxs', 'tryfin',
-              'tryexc', 'handler', 'tryexcfin', 'handlerfin', 'with', 'def']
+              'tryexc', 'handler', 'tryexcfin', 'handlerfin', 'tryelse', 'with', 'def']
 LEAVES = ['assign', 'break', 'continue', 'return', 'raise']
 LOOPS = ('while', 'for', 'forxs')
 
@@ -155,6 +155,14 @@ def build_skeleton(chain, leaf, variant=0, pure=False, chk=False):
       return (['try:'] + ind(['if %s:' % g] + ind(['raise UErr(t(%d, 0))' % sk.tid()]) +
                              [sk.tr('a', 7)]) +
               ['except UErr:'] + ind(inner + [sk.tr('c', 8)]) + [sk.tr('a', 9)])
+    if c == 'tryelse':
+      # the guarded jump sits in the else clause of a try/except
+      inner = wrap(i + 1, lv, indef)
+      g = _cond(i + variant + 2, chain, lv)
+      return (['try:'] + ind(['if %s:' % g] + ind(['raise UErr(t(%d, 0))' % sk.tid()]) +
+                             [sk.tr('a', 7)]) +
+              ['except UErr:'] + ind([sk.tr('c', 8)]) +
+              ['else:'] + ind(inner + [sk.tr('c', 10)]) + [sk.tr('a', 9)])
     if c == 'handlerfin':
       # the guarded jump sits in an except body of a try that also has a finally
       inner = wrap(i + 1, lv, indef)
@@ -392,6 +400,9 @@ class RandomGen(object):
     if r < 0.69 and self.has('partial'):
       self.tags.add('partial')
       self.need_helper = True
+      if self.r.random() < 0.5:
+        # a keyword pre-bound in the partial and given again at the call site
+        return ['%s = functools.partial(helper, q=%s)(%s, q=%s)' % (v, self.atom(ctx), self.atom(ctx), self.atom(ctx))]
       return ['%s = functools.partial(helper, %s)(%s)' % (v, self.atom(ctx), self.atom(ctx))]
     return ['%s = %s' % (v, self.expr(ctx))]
 
@@ -447,6 +458,8 @@ class RandomGen(object):
       out = ['try:'] + ind(body)
       if q < 0.65:
         out += ['except UErr:'] + ind(self.block(ctx.sub(), 1))
+        if self.r.random() < 0.35:
+          out += ['else:'] + ind(self.block(ctx.sub(), self.r.randint(1, 2)))
       if q > 0.4:
         # jumps inside finally are a documented limit: finally bodies are plain
         out += ['finally:'] + ind(self.assign(ctx))
